@@ -1,19 +1,35 @@
 from props_common import COMMON_TRUSTED
 
 CONFIG = {
-    "areas": ["auth"],
+    # ctx: the power levels in force are what the REUSED checker caches between checks (allowerContext.update); its
+    # sequences (power-levels event present / absent / present again, swapped for another event with the same ID, ...)
+    # check events - power-levels events among them - against the cached content (seeded change C08-r4m1)
+    "areas": ["auth", "ctx"],
+    "op_filter": {"ctx": ["ctx.seq"]},
     "lean": ["VProps.C08"],
-    "sources": ["VProps/C08.lean", "VModel/Auth.lean", "VModel/AuthSpec.lean", "VModel/Event.lean", "VModel/GoJson.lean"],
+    "sources": ["VProps/C08.lean", "VModel/Auth.lean", "VModel/AuthSpec.lean", "VModel/AuthRules.lean", "VProofs/AuthRulesBase.lean",
+                "VModel/Event.lean", "VModel/GoJson.lean"],
     "theorems": [
         "V.C08.checks_imply_no_escalation", "V.C08.accepted_notifications", "V.C08.accepted_pl_no_escalation",
         "V.C08.v12_no_creator_in_users", "V.C08.integer_only_levels", "V.C08.pl_columns_eq_spec",
         "V.C08.ceiling_step", "V.C08.history_ceiling", "V.C08.accepted_history", "V.C08.accepted_pl_notifications",
+        "V.C08.integer_only_levels_spelled", "V.C08.accepted_pl_integer",
     ],
     "rule": "random room states (create / power_levels / join_rules / members, 16 versions) x event under test; for C08 the "
-            "power-level events are old-content mutations at sender level -1/0/+1 incl. removals, string/float/junk levels; "
-            "non-trivial = a power_levels event; the spec stream evaluates NoEscalation on every event the implementation accepts",
-    "nontrivial": lambda op, impl: "6d2e726f6f6d2e706f7765725f6c6576656c73" in op.split("\t")[3],
+            "power-level events are old-content mutations at sender level -1/0/+1 incl. removals, string/float/junk levels, a JSON null "
+            "in place of a level / of a map of levels / of a map value, and version-12 creators (privileged, unlisted) changing any level; "
+            "non-trivial = a power_levels event; the spec stream evaluates NoEscalation on every event the implementation accepts AND "
+            "demands rejection of every version-10+ content that fails the independent integer-only predicate (AuthRules.integerContent); "
+            "the witnesses of the round-4 defects A1 / A2 are corpus/C08/auth.ops; ctx.seq (as C09): one reused checker whose cached power "
+            "levels are refreshed between checks (event present / absent / present again; another event with the same ID), spec = the "
+            "standalone Allowed on the events the provider holds now",
+    "nontrivial": lambda op, impl: "6d2e726f6f6d2e706f7765725f6c6576656c73" in op.split("\t")[3],   # auth.allowed: the event; ctx.seq: the events
     "trusted": COMMON_TRUSTED + ["encoding/json struct decoding modelled by VModel.GoJson"],
     "assumptions": ["user levels are the explicit entries of `users` (a change of users_default is judged as a threshold change)",
-                    "effective values with defaults substituted (DESIGN.md 6.1 D3/D4); notification sender level read from the old content (D11)"],
+                    "effective values with defaults substituted (DESIGN.md 6.1 D3/D4): a per-event-type entry is compared through the "
+                    "effective level of that type for a NON-state event (entry, else events_default) on both sides, so ADDING an entry for a "
+                    "state event type whose threshold in force was state_default above the sender's level is accepted when the new entry and "
+                    "events_default are within the sender's level (audit item A7; Matrix rule 10.7 and Synapse accept it too)",
+                    "notification levels: old value >= the sender's level is refused (D11: spec >); the sender's level is the privileged level "
+                    "(version 12: creators at 2^53), as for every other comparison - the former reading `from the old content` hid defect A1"],
 }
